@@ -98,7 +98,58 @@ def prepare(ob: Ob):
     return ground + insts + [target]
 
 
+def _discharge_split(ob: Ob):
+    """A conjunctive goal checked conjunct by conjunct over one shared instantiation of the hypotheses
+    (the schemas are instantiated once over the terms of all skolemised conjuncts)."""
+    from .ground import Q, instantiate
+    t0 = time.time()
+    ground = [h for h in ob.hyps if not isinstance(h, Q)]
+    schemas = [h for h in ob.hyps if isinstance(h, Q)]
+    targets = [(getattr(g, "name", None) or f"#{i}", z3.Not(g.skolem(_fresh) if isinstance(g, Q) else g)) for i, g in enumerate(ob.goal)]
+    insts = instantiate(ground + [t for _n, t in targets], schemas)
+    ob.meta["instances"] = len(insts)
+    ob.meta["queries"] = len(targets)
+    s = z3.Solver()
+    s.set("timeout", Z3_TIMEOUT_MS)
+    for a in ground + insts:
+        s.add(a)
+    ob.backend = "z3-" + z3.get_version_string()
+    ob.result = "unsat"
+    failed = []
+    for name, t in targets:
+        s.push()
+        s.add(t)
+        r = s.check()
+        if r == z3.unsat:
+            s.pop()
+            continue
+        if r == z3.sat:
+            verdict = "sat"
+            if ob.model is None:
+                ob.model = s.model()
+        else:
+            ob.reason = s.reason_unknown()
+            verdict, txt = _cvc5_check(s.to_smt2())
+            ob.backend = "cvc5-1.0.3 (after z3 unknown: %s)" % ob.reason
+            ob.reason += " | cvc5: " + txt[:200]
+        if verdict != "unsat":
+            failed.append(name)
+            if ob.result == "unsat":
+                ob.result = verdict
+                ob.smt2_text = s.to_smt2()
+        s.pop()
+    if failed:
+        ob.meta["failed_conjuncts"] = failed
+    else:
+        ob.smt2_text = None
+    ob._smt2 = None
+    ob.ms = (time.time() - t0) * 1000.0
+    return ob
+
+
 def discharge(ob: Ob, second_solver=False):
+    if ob.meta.get("split") and isinstance(ob.goal, (list, tuple)) and ob.expect == "unsat" and not any(isinstance(h, __import__("pyvc.core", fromlist=["ClassTheory"]).ClassTheory) for h in ob.hyps):
+        return _discharge_split(ob)
     t0 = time.time()
     s = z3.Solver()
     s.set("timeout", Z3_TIMEOUT_MS)
